@@ -6,6 +6,10 @@ From FF Require Import Model.Tensor Spec.Kron Proofs.TensorIdx Proofs.TensorOrde
   Proofs.TensorKron Proofs.TensorRegroup Proofs.TensorInsert Proofs.TensorInsertModel.
 Import ListNotations.
 
+Section Generic.
+Context {T : Type} {EN : Entry T} {EL : EntryLaws T}.
+Local Notation arr := (garr T).
+
 (* ------------------------------------------------------------------ auxiliary facts *)
 Lemma chain_spec_sorted {L} (its : list (Z * Z * L)) q orig :
   (forall b, In b its -> (0 <= ikey b)%Z) ->
@@ -61,11 +65,11 @@ Proof.
   rewrite <- seq_shift, map_map. exact IH.
 Qed.
 
-Lemma axis_dims_firstn a k L : axis_dims a (firstn k L) = firstn k (axis_dims a L).
+Lemma axis_dims_firstn a k (L : list arr) : axis_dims a (firstn k L) = firstn k (axis_dims a L).
 Proof. unfold axis_dims. rewrite firstn_map. reflexivity. Qed.
-Lemma axis_dims_skipn a k L : axis_dims a (skipn k L) = skipn k (axis_dims a L).
+Lemma axis_dims_skipn a k (L : list arr) : axis_dims a (skipn k L) = skipn k (axis_dims a L).
 Proof. unfold axis_dims. rewrite skipn_map. reflexivity. Qed.
-Lemma axis_dims_insert_at a k G L : axis_dims a (insert_at k G L) = insert_at k (nth a (shp G) 0) (axis_dims a L).
+Lemma axis_dims_insert_at a k (G : arr) (L : list arr) : axis_dims a (insert_at k G L) = insert_at k (nth a (shp G) 0) (axis_dims a L).
 Proof. unfold axis_dims. rewrite map_insert_at. reflexivity. Qed.
 
 (* one step of the recorded-dimension bookkeeping on one axis *)
@@ -296,3 +300,4 @@ Proof.
     + rewrite Forall_forall in HL. auto.
     + subst x. destruct it as [k y]. apply in_combine_r in Hit. rewrite Forall_forall in HG. auto.
 Qed.
+End Generic.
